@@ -2324,18 +2324,22 @@ private:
         // move items and put data item into correct data slot
         TLX_BTREE_ASSERT(slot >= 0 && slot <= leaf->slotuse);
 
+        // the value may be a reference to an entry of this very leaf
+        // (insert(*it)): take a copy before the slots are shifted
+        const value_type valuecopy(value);
+
         std::copy_backward(leaf->slotdata + slot,
                            leaf->slotdata + leaf->slotuse,
                            leaf->slotdata + leaf->slotuse + 1);
 
-        leaf->slotdata[slot] = value;
+        leaf->slotdata[slot] = valuecopy;
         leaf->slotuse++;
 
         if (splitnode && leaf != *splitnode && slot == leaf->slotuse - 1)
         {
             // special case: the node was split, and the insert is at the
             // last slot of the old node. then the splitkey must be updated.
-            *splitkey = key;
+            *splitkey = key_of_value::get(valuecopy);
         }
 
         return std::pair<iterator, bool>(iterator(leaf, slot), true);
